@@ -102,6 +102,28 @@ CHECKS["C17"] = dict(
     note="Outside the model: rounding of the floating-point keys (sub-ulp reorderings are inside the tested band); rstar's own nearest_neighbor_iter (non-periodic path) and "
          "bulk loading are external code, tested through the same spec but not modelled.", design="5 C17")
 
+CHECKS["C14"] = dict(
+    technique="Coq proofs of the chain-level identities + a separate downstream crate implementing the public integral traits, compared with the exact model's moments",
+    text="Theorems: apex independence / five-point identity (signed tetrahedra with the generator as apex decompose the enclosed region), vector areas of a closed surface "
+         "sum to zero, per-cell data alignment under every mask (structural model). Tie: a downstream crate (public API only) must compile; its ten monomial integrals of "
+         "degree <= 2 per cell and signed area / plane residual per face are compared with the exact model's integrals over the exact cell (both decompositions, with and "
+         "without face data), all dimensionalities, periodic or not, masks.",
+    note="'Equals the integral over the cell' is stated at chain level (no measure theory). Known finding F12: the WithData traits cannot be implemented with real data "
+         "by any downstream type (blanket impl conflict), so data delivery is proved on the model only.", design="5 C14")
+CHECKS["C15"] = dict(
+    technique="Coq proof (Cramer: vertex on its three planes) + exact transcription of with_faces/sort_face_vertices compared on the implementation's duals + polytope spec run",
+    text="Theorem: a vertex built from three planes lies on all three (exact). Tie: every 3D cell with face data: vertices on their planes and inside all half-spaces, each in "
+         "exactly three faces; polygons simple, convex, counter-clockwise, area = area integral; V-E+F=2; accessors = face integrals; discard/re-derive identity; face vertex "
+         "lists equal the extracted model's on the same duals; 1D/2D requests rejected on both conversion paths (debug build, so an unchecked None would trap).",
+    note="Partial: Euler's relation and the walk in sort_face_vertices are checked per cell, not proved; the type-state invariant relies on Rust privacy.", design="5 C15")
+CHECKS["C20"] = dict(
+    technique="Coq proof of the cell-pruning bound (clamp admissibility) + exact brute-force differential run through hooks",
+    text="Theorem: the per-axis clamp point of a grid cell is at least as close to the query as any particle in the cell (skip rule is safe). Tie: hooked Space::knn against "
+         "exact rational brute force for cubic and non-cubic boxes, sparse grids, all k; Welzl/EPOS-6 (points and spheres) containment and Welzl minimality against the "
+         "best sphere through <= 4 input points.",
+    note="Welzl's recursion and the ring-termination bound are not proved (brute-force oracle per run). Known finding F5: zero-size configurations (single point, "
+         "coincident points, zero-radius spheres).", design="5 C20")
+
 NOT_YET = {}
 
 ALL = ["C%02d" % i for i in range(1, 21)]
@@ -134,7 +156,7 @@ def main():
             "enable": "RUSTFLAGS='--cfg meshless_voro_verif' cargo build (the harness crate in /verif/harness depends on /repo by path)",
             "baseline_off_cmd": "cd /repo && cargo test --workspace --no-fail-fast --offline",
             "source_commits": ["2ec7ecd"],
-            "fix_commits": ["09dfeb6", "acc62b6", "e7978d5", "ab48a7b"],
+            "fix_commits": ["09dfeb6", "acc62b6", "e7978d5", "ab48a7b", "26b237e", "cd67cc4"],
             "add_only": True,
         },
         "engines": [{
